@@ -112,10 +112,12 @@ type Engine struct {
 
 type Worker struct {
 	*Program
-	id     int
-	tt     *TermTable
-	solver *Solver
-	paths  int
+	id       int
+	tt       *TermTable
+	solver   *Solver
+	paths    int
+	bmemo    map[int]ival
+	varBound map[int]ival
 }
 
 type HarnessRun struct {
@@ -183,9 +185,22 @@ func (e *Engine) branch(cond *Term) bool {
 	if e.pcSet[cond.id] {
 		return true
 	}
+	cond = e.cancel(cond)
+	if cond.isTrue() {
+		return true
+	}
+	if cond.isFalse() {
+		return false
+	}
+	if e.pcSet[cond.id] {
+		return true
+	}
 	ncond := e.tt.Not(cond)
 	if e.pcSet[ncond.id] {
 		return false
+	}
+	if v, ok := e.decide(cond); ok {
+		return v
 	}
 	if e.pos < len(e.prefix) {
 		c := e.prefix[e.pos]
@@ -401,7 +416,7 @@ func (p *Program) runHarness(fn *ssa.Function, nWorkers int, maxPaths int, timeo
 		wg.Add(1)
 		go func(id int) {
 			defer wg.Done()
-			w := &Worker{Program: p, id: id}
+			w := &Worker{Program: p, id: id, bmemo: map[int]ival{}, varBound: map[int]ival{}}
 			w.tt = newTermTable()
 			w.solver = newSolver(w.tt, "z3", timeoutMs)
 			defer func() { w.solver.Close() }()
@@ -428,6 +443,7 @@ func (p *Program) runHarness(fn *ssa.Function, nWorkers int, maxPaths int, timeo
 					// bound memory: fresh solver and term table
 					st := w.solver
 					w.tt = newTermTable()
+					w.bmemo, w.varBound = map[int]ival{}, map[int]ival{}
 					ns := newSolver(w.tt, "z3", timeoutMs)
 					ns.queries, ns.cacheHits, ns.solverTime, ns.errors, ns.unknowns = st.queries, st.cacheHits, st.solverTime, st.errors, st.unknowns
 					st.Close()
